@@ -102,6 +102,20 @@ PROPS = {
         "level_text": "Exploration by generated histories; the oracle is a three-way differential between constructions of the same state from the stored audit log. Sampling of histories, not proof of purity of apply().",
         "level_note": "Trusted base: serde views of the aggregates (complete state), the storage copy routine of the harness.",
     },
+    "C12": {
+        "level": "exploration",
+        "cases": {"quick": 1600, "thorough": 32000},
+        "rule": "cases = generated sequences of CMS-signed RFC 6492 requests to a parent CA with two registered remote children and CMS-signed RFC 8181 requests to the publication server with two registered "
+        "publishers; the signing identity is drawn from five harness keys (the two children's, the two publishers', one unregistered), the claimed sender / addressed publisher from the registered ones and a stranger, "
+        "payloads list / issue (class, resource limit, CSR key) / revoke and list / deltas with URIs inside the own base, another publisher's base, a CA's base and outside the repository; a quarter of the messages get one "
+        "bit flipped; identity replacements of children and of the parent are interleaved; distinct by hash of the case JSON; non-trivial iff the case has at least one accepted and at least one refused request",
+        "floors": {"__nontrivial__": 0.60, "wrong_key_refused": 0.50, "flip_refused": 0.50, "accepted_issue": 0.40, "accepted_delta": 0.30, "child_identity_replaced": 0.20, "server_identity_replaced": 0.10},
+        "assumptions": ["requests enter through CaManager::rfc6492 and RepositoryManager::rfc8181 (the calls behind the HTTP endpoints) with harness-built CMS bytes", "the recipient handle inside an RFC 6492 message is not required to be checked (the property does not state it)",
+                        "hash/precondition verdicts of deltas are C10's business: for a delta inside the own base either verdict is accepted, and an error must leave everything unchanged"],
+        "technique": "property-based testing of generated request sequences with an explicit authorisation oracle (request may be acted upon iff signed by the identity registered for the claimed sender and, for a damaged message, iff it still decodes to the identical message), state comparison around refused requests, reply validation under the server's current identity key, entitlement / base-URI containment of what accepted requests obtain",
+        "level_text": "Exploration by generated request sequences incl. single-bit corruptions of valid messages; explicit oracle. Sampling, not proof.",
+        "level_note": "Trusted base: rpki-rs CMS encoding/decoding used to build requests and to validate replies; krill's own signer used with harness-owned identity keys.",
+    },
     "C19": {
         "level": "exploration",
         "cases": {"quick": 1200, "thorough": 24000},
